@@ -31,3 +31,7 @@ pub fn needs_plain(_p: &Plain) -> Response {
 pub fn no_response() -> Plain {
     Plain
 }
+
+/// A fallback must return something that implements `IntoResponse`, too.
+#[pavex::fallback(id = "UNIT_FALLBACK")]
+pub fn unit_fallback() {}
